@@ -334,7 +334,7 @@ class ConstrainedFitness(Fitness):
     def __ne__(self, other):
         return not self.__eq__(other)
 
-    def dominates(self, other):
+    def dominates(self, other, obj=slice(None)):
         self_violates_constraints = _violates_constraint(self)
         other_violates_constraints = _violates_constraint(other)
 
@@ -345,7 +345,7 @@ class ConstrainedFitness(Fitness):
         elif other_violates_constraints:
             return True
 
-        return super(ConstrainedFitness, self).dominates(other)
+        return super(ConstrainedFitness, self).dominates(other, obj)
 
     def __deepcopy__(self, memo):
         copy_ = super(ConstrainedFitness, self).__deepcopy__(memo)
